@@ -540,4 +540,15 @@ theorem parseEx_eqv (lc : Libc) (t t' : Tok) (h : Eqv t t') (data : Bytes) :
   have r := parseEx_finalEqv lc h data
   ⟨r.err, r.value, r.offset, r.stuck, r.fault, r.tok⟩
 
+/-- the same for the `len = -1` entry point -/
+theorem parseExZ_finalEqv (lc : Libc) {t t' : Tok} (h : Eqv t t') (str : Bytes) :
+    FinalEqv (parseExZ lc t str) (parseExZ lc t' str) := by
+  have r := parseEx_finalEqv lc h (cstr str ++ [0])
+  unfold parseExZ
+  simp only
+  rw [← r.err]
+  split
+  · exact ⟨rfl, r.value, r.offset, r.stuck, rfl, r.tok⟩
+  · exact r
+
 end JsonC.Tokener
